@@ -208,10 +208,10 @@ Definition e_stable_one (c : cfg) (lc : lcfg) (app : Z) (e : estate) (x : svault
              end)
          end) (fun r =>
   let '(s1, rs, cl) := r in
-  let s2 := prod_del_id s1 app (sv_pair x) (sv_id x) in
-  let s3 := upd_mint s2 app (sv_pair x) (sv_out x) false in
-  let s4 := upd_coll s3 app (sv_pair x) (sv_in x) false in
-  let s5 := set_svaults s4 (del_sv (svaults s4) (sv_id x)) in          (* DeleteStableMintVault *)
+  let s2 := set_svaults s1 (del_sv (svaults s1) (sv_id x)) in          (* DeleteStableMintVault *)
+  let s3 := prod_del_id s2 app (sv_pair x) (sv_id x) in
+  let s4 := upd_mint s3 app (sv_pair x) (sv_out x) false in
+  let s5 := upd_coll s4 app (sv_pair x) (sv_in x) false in
   let l1 := mkL s5 (lks l) (aus l) (lkid l) (auid l)
                 (add2 (add2 (ereg l) app (ep_in ep) (sv_in x)) app (ep_out ep) (sv_out x))
                 (add1 (edebt l) (ep_out ep) (sv_out x)) (rsv l) (drift l) (er_mint l) (er_coll l) (er_short l) (over l) in
